@@ -1,6 +1,11 @@
 /-
   Corruption operators for the malformed-input stream (C10): bit flip, byte set, truncate, extend,
-  splice, and "set a length/count/offset field to a boundary value".  Driver path, core only.
+  splice (overwrite a span with a copy from elsewhere, INSERT a span, DELETE a span — the last two shift
+  every byte behind them), and "set a length/count/offset field to a boundary value".
+  `mutate` applies a chain of operators: usually 1..maxSteps of them (short chains keep most of the valid
+  structure alive), and in one case out of four a chain of 1..8 whatever `maxSteps` says, so that every
+  mutation family covers the property's "sequences of 1..8 corruption operators" at every tier.
+  Driver path, core only.
 -/
 import PgVerif.Basic.Canon
 namespace PgVerif.Gen
@@ -13,12 +18,15 @@ def setAt (bs : Bytes) (pos : Nat) (patch : Bytes) : Bytes :=
 def boundaryVals (width : Nat) (len : Nat) : List Nat :=
   let m := 256 ^ width
   [0, 1, 2, m - 1, m - 2, m / 2, m / 2 - 1, m / 2 + 1, len % m, (len + 1) % m, (len - 1) % m,
-   8192 % m, 8191 % m, 8193 % m, 24, 23, 25, 32767 % m, 32768 % m, 16384 % m]
+   8192 % m, 8191 % m, 8193 % m, 24, 23, 25, 32767 % m, 32768 % m, 16384 % m,
+   -- lengths as varlena words store them (4-byte header: len<<2, 1-byte header: len<<1|1), 28- and 30-bit masks
+   -- (JSONB counts / offsets, TOAST extsize), and the smallest value with the 30-bit flag set
+   (4 * len) % m, (2 * len + 1) % m, 0x0FFFFFFF % m, 0x3FFFFFFF % m, 0x40000000 % m]
 
 /-- one corruption step; `fields` = (offset, width) of length/count/offset fields worth attacking -/
 def mutateOnce (fields : List (Nat × Nat)) (bs : Bytes) : Gen Bytes := do
   let n := bs.length
-  match ← Gen.below 8 with
+  match ← Gen.below 10 with
   | 0 => -- bit flip
     if n = 0 then return bs
     let p ← Gen.below n
@@ -34,10 +42,20 @@ def mutateOnce (fields : List (Nat × Nat)) (bs : Bytes) : Gen Bytes := do
   | 3 => -- extend
     let k ← Gen.oneOf [1, 2, 7, 8, 100, 8192]
     return bs ++ (← Gen.bytes k)
-  | 4 => -- splice a chunk from elsewhere
+  | 4 => -- splice: overwrite a span with a chunk from elsewhere (length-preserving)
     if n < 2 then return bs
     let a ← Gen.below n; let b ← Gen.below n; let l ← Gen.range 1 64
     return setAt bs b ((bs.drop a).take l)
+  | 5 => -- splice: insert a span (a copy from elsewhere, or fresh bytes); everything behind it shifts
+    let b ← Gen.below (n + 1)
+    let l ← Gen.oneOf [1, 2, 3, 4, 7, 8, 23, 24, 64]
+    let chunk ← (do if n ≥ 2 && (← Gen.bool) then (do return (bs.drop (← Gen.below n)).take l) else Gen.bytes l)
+    return bs.take b ++ chunk ++ bs.drop b
+  | 6 => -- splice: delete a span; everything behind it shifts
+    if n = 0 then return bs
+    let b ← Gen.below n
+    let l ← Gen.oneOf [1, 2, 3, 4, 7, 8, 23, 24, 64]
+    return bs.take b ++ bs.drop (b + l)
   | _ => -- field := boundary value (most of the weight)
     if fields.isEmpty || n = 0 then
       let p ← Gen.below (max n 1)
@@ -46,11 +64,15 @@ def mutateOnce (fields : List (Nat × Nat)) (bs : Bytes) : Gen Bytes := do
     let v ← Gen.oneOf (boundaryVals w n)
     return setAt bs off (le w v)
 
-/-- a chain of 1..maxSteps corruption steps -/
-def mutate (fields : List (Nat × Nat)) (maxSteps : Nat) (bs : Bytes) : Gen Bytes := do
-  let k ← Gen.range 1 (max maxSteps 1)
+/-- a chain of corruption steps and its length: 1..maxSteps steps in three cases out of four, 1..8 in the fourth -/
+def mutateK (fields : List (Nat × Nat)) (maxSteps : Nat) (bs : Bytes) : Gen (Nat × Bytes) := do
+  let k ← (do if ← Gen.prob 1 4 then Gen.range 1 8 else Gen.range 1 (max maxSteps 1))
   let mut cur := bs
   for _ in [0:k] do cur ← mutateOnce fields cur
-  return cur
+  return (k, cur)
+
+/-- a chain of corruption steps (see `mutateK`) -/
+def mutate (fields : List (Nat × Nat)) (maxSteps : Nat) (bs : Bytes) : Gen Bytes := do
+  return (← mutateK fields maxSteps bs).2
 
 end PgVerif.Gen
